@@ -945,7 +945,7 @@ def check_C18(sc, v, tier, seed, replay):
     argvs = [()] + [(a,) for a in words + odd] + list(itertools.product(words, repeat=2))
     argvs += [("-t", "--"), ("--", "-t"), ("-t", "extra"), ("--t", "-t"), ("-t=true", "-t")]
     triples = list(itertools.product(words, repeat=3))
-    argvs += triples if tier != "quick" else rnd.sample(triples, 8)
+    argvs += triples if tier != "quick" else [t for k, t in enumerate(triples) if (k + seed) % 2 == 0 or t[0] == "-t"]
     scn, text = online.make_scenario(rnd, {"reg": 1, "pdu": 0, "svc": 0, "rel": 0, "dereg": 0})
     with cf.ThreadPoolExecutor(max_workers=12) as ex:
         clis = list(ex.map(lambda x: _cli_run(sc, emu, "cli%03d" % x[0], x[1], scn, text), enumerate(argvs)))
